@@ -126,7 +126,7 @@ SIG_NAMES = {11: "SIGSEGV", 7: "SIGBUS", 8: "SIGFPE", 4: "SIGILL", 6: "SIGABRT",
 
 
 def parse_worker_output(text):
-    res = dict(summary=None, violations=[], digests={}, fatal=None, progress=None)
+    res = dict(summary=None, violations=[], digests={}, fatal=None, progress=None, tolerated=None)
     for line in text.splitlines():
         if line.startswith("S "):
             res["summary"] = json.loads(line[2:])
@@ -141,6 +141,11 @@ def parse_worker_output(text):
             m = re.match(r"FATAL sig=(\d+) run=(\d+) step=(\d+)", line)
             if m:
                 res["fatal"] = dict(sig=int(m.group(1)), run=int(m.group(2)), step=int(m.group(3)))
+        elif line.startswith("TOLERATED "):
+            # the watchdog fired inside a step over an unwound object (nothing is promised there): run abandoned
+            m = re.match(r"TOLERATED run=(\d+) step=(\d+)", line)
+            if m:
+                res["tolerated"] = dict(run=int(m.group(1)), step=int(m.group(2)))
     return res
 
 
@@ -150,6 +155,7 @@ def run_worker(binary, scenario, seed, tier, start, count, stride, digests, cove
     remaining = count
     cur = start
     fatals = 0
+    tolerated = 0
     while remaining > 0:
         cmd = [binary, "run", "--scenario", scenario, "--seed", str(seed), "--tier", tier,
                "--start", str(cur), "--count", str(remaining), "--stride", str(stride),
@@ -167,6 +173,14 @@ def run_worker(binary, scenario, seed, tier, start, count, stride, digests, cove
         results.append(out)
         if out["summary"] is not None and p.returncode == 0:
             break
+        if out["tolerated"] is not None and p.returncode == 76:
+            tolerated += 1
+            done = (out["tolerated"]["run"] - cur) // stride + 1
+            cur += done * stride
+            remaining -= done
+            if tolerated >= 200:
+                break
+            continue
         if out["fatal"] is not None:
             fatals += 1
             done = (out["fatal"]["run"] - cur) // stride + 1
@@ -240,6 +254,8 @@ def run_job_config(job, cfg, binary, seed, tier, want_digests):
                 _acc(jr.probes, s["probes"])
                 if len(jr.samples) < 4:
                     jr.samples.extend(s["samples"][:1])
+            if out.get("tolerated") is not None:
+                jr.faults["unwound.run_abandoned_on_hang"] = jr.faults.get("unwound.run_abandoned_on_hang", 0) + 1
             if os.path.exists(out["cover_path"]):
                 cover_files.append(out["cover_path"])
             for v in out["violations"]:
